@@ -642,9 +642,11 @@ pub enum Route {
     BlockSuper,
     CompBody,
     CompResult,
+    SetOverSafeTwin,
+    SetGlobalOverPlainTwin,
 }
 
-pub const ROUTES: [Route; 19] = [
+pub const ROUTES: [Route; 21] = [
     Route::Set,
     Route::SetGlobal,
     Route::Container,
@@ -664,6 +666,8 @@ pub const ROUTES: [Route; 19] = [
     Route::BlockSuper,
     Route::CompBody,
     Route::CompResult,
+    Route::SetOverSafeTwin,
+    Route::SetGlobalOverPlainTwin,
 ];
 
 impl Route {
@@ -688,6 +692,8 @@ impl Route {
             Route::BlockSuper => "block-through-super",
             Route::CompBody => "component-body",
             Route::CompResult => "component-result-set",
+            Route::SetOverSafeTwin => "set-over-safe-twin",
+            Route::SetGlobalOverPlainTwin => "set_global-over-plain-twin-in-loop",
         }
     }
     /// The route hands engine-escaped text on unchanged (or hands the value on untouched).
@@ -882,6 +888,24 @@ impl Builder {
             Route::SetGlobal => {
                 let v = self.fresh("r");
                 self.code(&format!("{{% for i in [1] %}}{{% set_global {v} = {cur} %}}{{% endfor %}}"));
+                self.cur = v;
+            }
+            // Re-assignment replaces the value together with its mark: the variable first holds a
+            // string of the same characters with the other mark (seeded change C01-10 kept the
+            // old entry when the new value compared equal, and equality ignores the mark).
+            Route::SetOverSafeTwin => {
+                let v = self.fresh("r");
+                self.code(&format!(
+                    "{{% if ({cur}) is string %}}{{% set {v} = ({cur}) | safe %}}{{% endif %}}{{% set {v} = {cur} %}}"
+                ));
+                self.cur = v;
+            }
+            Route::SetGlobalOverPlainTwin => {
+                let v = self.fresh("r");
+                self.code(&format!(
+                    "{{% for i in [1] %}}{{% if ({cur}) is string %}}{{% set_global {v} = ({cur}) ~ \"\" %}}{{% endif %}}\
+                     {{% set_global {v} = {cur} %}}{{% endfor %}}"
+                ));
                 self.cur = v;
             }
             Route::Container => {
@@ -1130,7 +1154,7 @@ pub fn build(source: &str, routes: &[Route], sink: Sink, d: &Datum) -> Result<Op
     b.cur = src.cur.clone();
     if src.sees_scope
         && routes.iter().enumerate().any(|(i, r)| {
-            matches!(r, Route::SetGlobal | Route::SetGlobalBlock) && routes[..i].contains(&Route::ForBody)
+            matches!(r, Route::SetGlobal | Route::SetGlobalBlock | Route::SetGlobalOverPlainTwin) && routes[..i].contains(&Route::ForBody)
         })
     {
         return Err(Skip::ScopeDumpSeesRouteGlobal);
